@@ -379,6 +379,13 @@ impl Check for C02 {
     fn rule(&self) -> &'static str {
         "seeded ledgers with balance assertions on ~half of the postings (true by construction from the model's running balance, or made false by one unit in the last place; bare '= 0'; multi-commodity accounts; aliases), cut into up to 5 files mostly through glob includes so that assertion order is file-enumeration order; 2-4 simulated processes with sorted/reversed/shuffled glob results and different hash seeds; non-trivial = at least two assertions, or an assertion evaluated after a posting to the same account that was delivered from another file; distinct = structural hash of the tape"
     }
+
+    fn assumptions(&self) -> Vec<&'static str> {
+        vec![
+            "an assertion on an account whose own omitted-amount posting stands earlier in the same transaction is not generated: the omitted amount is known only once every posting has been read, so what 'everything before it in file order' amounts to there is left open (ledger-cli and okane both check such an assertion without the deduced amount)",
+            "assertions are written as literals or (a sixth of them) as value expressions; an expression that cancels to zero in one commodity asserts that commodity, not the whole account",
+        ]
+    }
 }
 
 // ---------------------------------------------------------------------------
